@@ -1201,6 +1201,11 @@ COORD_NAMES = {'fk5': ['J2000', 'j2000', 'fk5', 'J2000'], 'fk4': ['B1950', 'b195
                'geocentrictrueecliptic': ['ECLIPTIC', 'ecliptic'], 'image': ['IMAGE', 'image', 'Image']}
 
 
+def json_copy(x):
+    import json
+    return json.loads(json.dumps(x))
+
+
 def g_dec(rng, lo, hi, maxscale=7):
     scale = rng.randint(0, maxscale)
     x = rng.uniform(lo, hi)
@@ -1279,22 +1284,21 @@ def g_body(rng, pixel):
     if n == 'box':
         c1 = g_pt(rng, pixel)
         c2 = g_pt(rng, pixel)
-        # both corners in the same notation (per axis)
+        # both corners in the same notation (per axis), different values
         for i in (0, 1):
-            for _ in range(50):
-                if (c1[i]['t'], c1[i].get('u')) == (c2[i]['t'], c2[i].get('u')):
+            gen = g_lon if i == 0 else g_lat
+            for _ in range(300):
+                if (c1[i]['t'], c1[i].get('u')) == (c2[i]['t'], c2[i].get('u')) and \
+                        ref_coord_deg(c1[i]) != ref_coord_deg(c2[i]):
                     break
-                c2[i] = (g_lon if i == 0 else g_lat)(rng, pixel)
+                c2[i] = gen(rng, pixel)
             else:
-                c2[i] = dict(c1[i])
-            for _ in range(50):        # the two corners must differ on each axis
-                if ref_coord_deg(c1[i]) != ref_coord_deg(c2[i]):
-                    break
-                c2[i] = dict(c2[i])
+                c2[i] = json_copy(c1[i])
                 if c2[i]['t'] == 'dec':
-                    c2[i]['d'] = g_dec(rng, 1, 80, 3)
+                    m = int(c2[i]['d'][1])
+                    c2[i]['d'] = [c2[i]['d'][0], str(m - 1 if m > 1 else m + 1), c2[i]['d'][2]]
                 else:
-                    c2[i]['b'] = (c2[i]['b'] + 7) % 60
+                    c2[i]['b'] = (c2[i]['b'] + 1) % 60
         return {'n': n, 'c1': c1, 'c2': c2}
     if n == 'centerbox':
         return {'n': n, 'c': g_pt(rng, pixel), 'w': g_len(rng, pixel), 'h': g_len(rng, pixel)}
